@@ -10,6 +10,7 @@ from __future__ import annotations
 
 import random
 
+import examples as ex
 import idcommon as ic
 from common import Outcome, seed, workdir
 
@@ -43,6 +44,9 @@ def run(tier: str) -> int:
         deep = [q for q in it["qs"] if q[3] and q[4]]
         if deep:
             items.append(dict(it, qs=deep))
+    # the repository's example catalogue: single-variable X, Y, Z queries on its 5-8 node graphs (IDGenFile.tla)
+    exg = ex.id_items(wd, "idc")
+    items += ex.pick([dict(it, own=[]) for it in exg["items"]], 8 if tier == "quick" else 60, rng, "EX-")
     groups = ic.run_y0(wd, items, 2, True, "c03")
     vs, st, by_id = ic.judge(wd, groups, seeds=(1, 2) if tier == "quick" else (1, 2, 3))
     ic.report(out, vs, by_id, ic.index(items), skip_clauses={"vocabulary"})
@@ -52,8 +56,8 @@ def run(tier: str) -> int:
     # informational: where y0 refuses although the reference IDC answers (the statement makes no completeness claim)
     spurious = sum(1 for i, v in vs.items() if v["clause"] == "refused" and idx[(i.split(":")[0], int(i.split(":")[1]))][4])
     cov = {
-        "states": sum(m["distinct"] for m in mcs) + g3["distinct"] + g4["distinct"] + r5["distinct"] + st["distinct"],
-        "transitions": sum(m["generated"] for m in mcs) + g3["generated"] + g4["generated"] + r5["generated"] + st["generated"],
+        "states": sum(m["distinct"] for m in mcs) + g3["distinct"] + g4["distinct"] + r5["distinct"] + st["distinct"] + exg["distinct"],
+        "transitions": sum(m["generated"] for m in mcs) + g3["generated"] + g4["generated"] + r5["generated"] + st["generated"] + exg["generated"],
         "traces_validated_against_impl": len(vs),
         "estimands_evaluated": len(sem),
         "refusals_where_reference_answers": spurious,
